@@ -7,6 +7,7 @@ import (
 	"fmt"
 	"io"
 	"net/http"
+	"sort"
 	"strings"
 	"time"
 
@@ -160,7 +161,7 @@ func buildC11(e *engine, p *rt.Package) {
 						return
 					}
 					valid, _ := json.Marshal(tree)
-					kind := rapid.SampledFrom([]string{"wrong_type", "wrong_type", "wrong_type", "truncate", "trailing", "top_level", "deep_nesting", "invalid_utf8", "duplicate_key", "random_bytes", "binary_garbage", "binary_truncated", "huge_number", "read_error", "read_error"}).Draw(t, "mutation")
+					kind := rapid.SampledFrom([]string{"wrong_type", "wrong_type", "wrong_type", "truncate", "trailing", "top_level", "deep_nesting", "invalid_utf8", "duplicate_key", "random_bytes", "binary_garbage", "binary_truncated", "huge_number", "read_error", "read_error", "leaf_nested_array", "leaf_nested_array"}).Draw(t, "mutation")
 					ct := "application/json"
 					if rapid.IntRange(0, 3).Draw(t, "odd_ct") == 0 {
 						ct = oddContentTypes[rapid.IntRange(0, len(oddContentTypes)-1).Draw(t, "ct")]
@@ -184,6 +185,44 @@ func buildC11(e *engine, p *rt.Package) {
 						}
 						body, _ = json.Marshal(obj)
 						mustReject, desc = true, "wrong_type "+where
+					case "leaf_nested_array":
+						// whatever a key of the documented JSON form stands for (a field, a flattened or unwrapped
+						// child, a discriminator), [[]] is not a value of it: no proto3 JSON type is an array of arrays
+						var leaves []func()
+						var where []string
+						var walk func(path string, v any, set func(any))
+						walk = func(path string, v any, set func(any)) {
+							switch x := v.(type) {
+							case map[string]any:
+								ks := make([]string, 0, len(x))
+								for k := range x {
+									ks = append(ks, k)
+								}
+								sort.Strings(ks)
+								for _, k := range ks {
+									k := k
+									walk(path+"."+k, x[k], func(n any) { x[k] = n })
+								}
+							case []any:
+								for i := range x {
+									i := i
+									walk(fmt.Sprintf("%s[%d]", path, i), x[i], func(n any) { x[i] = n })
+								}
+							default:
+								if set != nil {
+									leaves = append(leaves, func() { set([]any{[]any{}}) })
+									where = append(where, path)
+								}
+							}
+						}
+						walk("$", tree, nil)
+						if len(leaves) == 0 {
+							return
+						}
+						i := rapid.IntRange(0, len(leaves)-1).Draw(t, "leaf")
+						leaves[i]()
+						body, _ = json.Marshal(tree)
+						mustReject, desc = true, "leaf_nested_array at "+where[i]
 					case "truncate":
 						if len(valid) < 2 {
 							return
